@@ -99,7 +99,7 @@ def avoid_known(cfg):
     """keep the stream inside the properties' domain: an argument that cannot be pickled (a generator)
     gives, under the raw/hash keymaps, a key object or value that a pickling backend (file, dir,
     sqlite) cannot accept; a failed store in such a backend is C03's subject, not the decorators'."""
-    if cfg['backend'] in ('dir', 'direct-dir', 'file', 'direct-file', 'sql') and ct.UNENC in cfg['special']:
+    if cfg['backend'] in ('dir', 'direct-dir', 'file', 'file-json', 'direct-file', 'sql') and ct.UNENC in cfg['special']:
         cfg = dict(cfg)
         cfg['special'] = [a for a in cfg['special'] if a != ct.UNENC]
     return cfg
